@@ -281,7 +281,11 @@ func (e *Env) eval(t *Term) Val {
 		}
 		return Val{K: TInt, I: acc}
 	case "imul":
-		return Val{K: TInt, I: a(0).I * a(1).I}
+		prod := int64(1)
+		for i := range t.Args {
+			prod *= a(i).I
+		}
+		return Val{K: TInt, I: prod}
 	case "idiv":
 		d := a(1).I
 		if d == 0 {
